@@ -122,6 +122,13 @@ RdDev(x, u, v) ==
   ELSE IF SerialMismatch(x, u, v)
   THEN [D_partial_cmp_vs_cmp |-> [RdExp(x, u, v) EXCEPT
            !.issues = <<"AllRecordData partial_cmp differs from cmp">>]]
+  \* D_nsec3_partial_cmp_vs_cmp: Nsec3::partial_cmp orders salt and next hashed
+  \* owner as plain octet strings, cmp (= canonical_cmp) by length octet first
+  ELSE IF x = "NSEC3" /\ FirstDiff(u, v) \in {4, 5}
+          /\ LexCmp(u[FirstDiff(u, v)], v[FirstDiff(u, v)])
+               # LexCmp(LabelWire(u[FirstDiff(u, v)]), LabelWire(v[FirstDiff(u, v)]))
+  THEN [D_nsec3_partial_cmp_vs_cmp |-> [RdExp(x, u, v) EXCEPT
+           !.issues = <<"AllRecordData partial_cmp differs from cmp">>]]
   ELSE <<>>
 
 \* Besides Record itself the executor looks at the other views of a record:
